@@ -10,7 +10,8 @@ Reads (Python `ast`, nothing of the modelled logic is executed):
   Entries are emitted in source order (dispatch is first-match).
 * the two parametrised entries (`exp(c1 t + c0) u(t)` and `1/(c1 t + c0)`): which of `sf`/`f`
   the return expression uses, after checking that it has the expected closed form.
-* fingerprints of the theorem-application statements (similarity/shift, modulation, sign choice).
+* the similarity and shift-phase statements of `term`, read structurally (exponents of `scale`/`shift`, `sf` vs `f`);
+* fingerprints of the remaining theorem-application statements (modulation, sign choice, constant).
 * lcapy/fexpr.py, omegaexpr.py, normfexpr.py, normomegaexpr.py: the substitution each conversion
   method performs (`self.subs(<monomial in 2, pi, dt> * <variable>)`), as exponent vectors.
 
@@ -46,8 +47,6 @@ CPOLE_TEST = 'other.is_Pow and other.args[1] == -1 and other.args[0].has(t)'
 FINGERPRINTS = {
     'sign_choice_sf': 'sf = -f if self.is_inverse else f',
     'sign_choice_st': 'st = -t if self.is_inverse else t',
-    'similarity': 'result = self.term(expr2, t, f / scale) / abs(scale)',
-    'shift_phase': 'result *= exp(I * 2 * pi * sf / scale * shift)',
     'constant': 'return expr * DiracDelta(f) * const',
     'mod_foo': 'foo = args / st',
     'mod_delta': 'return const1 * DiracDelta(f - foo / (I * 2 * pi))',
@@ -295,7 +294,57 @@ def parse_table(repo):
             info['outside'].append(test[:70])
         else:
             info['unparsed'].append('unknown table branch `%s`' % test[:90])
-    # fingerprints of the theorem-application code
+    # the similarity / shift statements are read structurally:
+    #   result = self.term(expr2, t, f * scale**se) / abs(scale)**re        (theorem: se = -1, re = 1)
+    #   result *= exp(I * 2 * pi * v * scale**pe * shift**qe)               (theorem: v = sf, pe = -1, qe = 1)
+    info['similarity'] = None
+    info['shift_phase'] = None
+    try:
+        import sympy as S
+        fS, sfS = S.Symbol('f', real=True), S.Symbol('sf', real=True)
+        sc, sh_ = S.Symbol('scale', positive=True), S.Symbol('shift', positive=True)
+        env = {'I': S.I, 'pi': S.pi, 'f': fS, 'sf': sfS, 'scale': sc, 'shift': sh_, 'exp': S.exp, 'abs': S.Abs}
+
+        def ev(node):
+            return eval(compile(ast.Expression(node), '<sim>', 'eval'), {'__builtins__': {}}, env)
+
+        def expo(e, sym):
+            return int(S.degree(S.numer(S.together(e)), sym)) - int(S.degree(S.denom(S.together(e)), sym))
+        for node in ast.walk(term_fn):
+            if isinstance(node, ast.Assign) and len(node.targets) == 1 and ast.unparse(node.targets[0]) == 'result' \
+                    and isinstance(node.value, ast.BinOp) and isinstance(node.value.op, ast.Div) \
+                    and isinstance(node.value.left, ast.Call) and ast.unparse(node.value.left.func) == 'self.term' \
+                    and len(node.value.left.args) == 3 and ast.unparse(node.value.left.args[0]) == 'expr2':
+                arg = ev(node.value.left.args[2])
+                div = ev(node.value.right)
+                q = S.simplify(arg / fS)
+                if q.has(fS) or q.has(sfS) or q.has(sh_) or S.simplify(q / sc ** expo(q, sc)) != 1:
+                    raise Unparsed('similarity argument `%s`' % ast.unparse(node.value.left.args[2]))
+                if S.simplify(div / sc ** expo(div, sc)) != 1:
+                    raise Unparsed('similarity divisor `%s`' % ast.unparse(node.value.right))
+                info['similarity'] = (expo(q, sc), expo(div, sc))
+            if isinstance(node, ast.AugAssign) and isinstance(node.op, ast.Mult) and ast.unparse(node.target) == 'result' \
+                    and isinstance(node.value, ast.Call) and ast.unparse(node.value.func) == 'exp' and len(node.value.args) == 1:
+                a = ev(node.value.args[0])
+                for (v, use_sf) in ((sfS, True), (fS, False)):
+                    if a.has(v):
+                        q = S.simplify(a / (S.I * 2 * S.pi * v))
+                        if q.has(fS) or q.has(sfS):
+                            raise Unparsed('shift phase `%s`' % ast.unparse(node.value.args[0]))
+                        pe, qe = expo(q, sc), expo(q, sh_)
+                        if S.simplify(q / (sc ** pe * sh_ ** qe)) != 1:
+                            raise Unparsed('shift phase `%s`' % ast.unparse(node.value.args[0]))
+                        info['shift_phase'] = (use_sf, pe, qe)
+                        break
+        if info['similarity'] is None:
+            info['unparsed'].append('similarity statement `result = self.term(expr2, t, ...) / ...` not found')
+        if info['shift_phase'] is None:
+            info['unparsed'].append('shift phase statement `result *= exp(...)` not found')
+    except Unparsed as e:
+        info['unparsed'].append(str(e))
+    except Exception as e:   # noqa
+        info['unparsed'].append('similarity/shift statements: %s: %s' % (type(e).__name__, e))
+    # fingerprints of the remaining theorem-application code
     stmts = set()
     for node in ast.walk(term_fn):
         if isinstance(node, ast.stmt) and not isinstance(node, (ast.If, ast.For, ast.FunctionDef)):
@@ -428,7 +477,13 @@ def generate(repo):
     L.append('def cpoleUsesSf : Option Bool := %s' % optb(info['cpole_uses_sf']))
     L.append('/-- the `1/(c1 t + c0)` entry distinguishes the half plane of the pole (and takes the principal value for a real pole) -/')
     L.append('def cpoleThreeWay : Bool := %s' % ('true' if info.get('cpole_three_way') else 'false'))
-    L.append('/-- the similarity/shift/modulation statements of `term` have the modelled text -/')
+    sim = info.get('similarity')
+    shp = info.get('shift_phase')
+    L.append('/-- `result = self.term(expr2, t, f * scale^se) / abs(scale)^re`: (se, re); the similarity theorem is (-1, 1) -/')
+    L.append('def similarity : Option (Int × Int) := %s' % ('none' if sim is None else 'some (%d, %d)' % sim))
+    L.append('/-- `result *= exp(I*2*pi * v * scale^pe * shift^qe)`: (v is sf, pe, qe); the shift theorem is (true, -1, 1) -/')
+    L.append('def shiftPhase : Option (Bool × Int × Int) := %s' % ('none' if shp is None else 'some (%s, %d, %d)' % ('true' if shp[0] else 'false', shp[1], shp[2])))
+    L.append('/-- the remaining theorem-application statements of `term` (sign choice, constant, modulation) have the modelled text -/')
     L.append('def theoremCodeAsModelled : Bool := %s' % ('true' if all(info['fingerprints'].values()) and info['fingerprints'] else 'false'))
     L.append('')
     L.append('/-- (from, to, exponents of 2, π, Δt in `self.subs(2^a π^b Δt^c · v_to)`, returnsSelf) -/')
